@@ -51,8 +51,14 @@ def knotvec(draw, pmin=0, pmax=4, nmin=1, nmax=6, maxmult=None, decades=6, inter
     if p is None:
         p = draw(st.integers(pmin, pmax))
     n = draw(st.integers(nmin, nmax))
-    mode = draw(st.sampled_from(["equal", "uniform", "log"]))
-    if mode == "equal" or n == 1:
+    mode = draw(st.sampled_from(["equal", "uniform", "log"] + (["graded"] if decades >= 10 else [])))
+    if mode == "graded" and n > 1:
+        # geometric grading towards one end (boundary-layer / singularity meshes): ratio 10^-g per span
+        g = draw(st.integers(1, 3))
+        lengths = [10.0 ** (-g * k) for k in range(n)]
+        if draw(st.booleans()):
+            lengths = lengths[::-1]
+    elif mode == "equal" or n == 1:
         lengths = [1.0] * n
     elif mode == "uniform":
         lengths = [draw(st.integers(1, 16)) / 16.0 for _ in range(n)]
